@@ -256,6 +256,14 @@ int main(int argc, char** argv) {
         expect_vec("a*x", r, R, SA * std::fabs(x));
         expect_same("x*a", r2, r, 0); expect_same("a*=x", r3, r, 0);
         for (int k = 0; k < d * d; k++) if (r[k] != a[k] * x) { mismatch("a*x:bits", 1, 0); break; }
+        { // the scalar is passed by value: it may be one of the vector's own components
+          for (int k : {0, 1, d * d - 1}) {
+            SU_vector s1 = a; s1[k] = 1.5; double f = s1[k]; SU_vector e1 = s1 * f; s1 *= s1[k]; expect_same("v*=v[k]", s1, e1, 0);
+            SU_vector s2 = a; s2[k] = 1.5; SU_vector e2 = s2; e2 /= 1.5; s2 /= s2[k]; expect_same("v/=v[k]", s2, e2, 0);
+            alignas(32) double ub[40]; for (int q = 0; q < d * d; q++) ub[q] = a[q]; ub[k] = 2.5;
+            SU_vector s3(d, ub); SU_vector e3 = SU_vector(s3) * 2.5; s3 *= ub[k]; expect_same("view*=buffer[k]", s3, e3, 0);
+          }
+        }
       } else if (op == "div") {
         double x = (double)p[0];
         SU_vector r = a; r /= x;
@@ -327,6 +335,10 @@ int main(int argc, char** argv) {
         SU_vector r = iCommutator(a, b);
         expect_vec("iCommutator", r, R, SA * SB);
         SU_vector r2(d); r2 = iCommutator(a, b); expect_same("assign(iCommutator)", r2, r, 0);
+        { SU_vector r3 = b; for (int q = 0; q < d * d; q++) r3[q] += 0.75 + q; r3 = iCommutator(a, b); expect_same("assign(iCommutator) over a vector holding other values", r3, r, 0);
+          SU_vector r4(d == 6 ? 3 : d + 1); for (unsigned q = 0; q < r4.Size(); q++) r4[q] = 3.25 + q; r4 = iCommutator(a, b); expect_same("assign(iCommutator) resizing", r4, r, 0);
+          { SU_vector junk(d); for (int q = 0; q < d * d; q++) junk[q] = -7.5 - q; }       // a released block full of other values ...
+          SU_vector r5 = iCommutator(a, b); expect_same("construct(iCommutator) on a recycled block", r5, r, 0); }
         { // accumulated into a vector that already holds something (identity component included): x (+-)= f(a,b) is x (+-) f(a,b)
           SU_vector x0 = b; x0[0] += 0.75;
           SU_vector x = x0; x += iCommutator(a, b); SU_vector e = x0 + r; expect_same("x+=iCommutator(a,b)", x, e, 0);
@@ -354,6 +366,10 @@ int main(int argc, char** argv) {
         SU_vector r = ACommutator(a, b);
         expect_vec("ACommutator", r, R, SA * SB);
         SU_vector r2(d); r2 = ACommutator(a, b); expect_same("assign(ACommutator)", r2, r, 0);
+        { SU_vector r3 = b; for (int q = 0; q < d * d; q++) r3[q] += 0.75 + q; r3 = ACommutator(a, b); expect_same("assign(ACommutator) over a vector holding other values", r3, r, 0);
+          SU_vector r4(d == 6 ? 3 : d + 1); for (unsigned q = 0; q < r4.Size(); q++) r4[q] = 3.25 + q; r4 = ACommutator(a, b); expect_same("assign(ACommutator) resizing", r4, r, 0);
+          { SU_vector junk(d); for (int q = 0; q < d * d; q++) junk[q] = -7.5 - q; }       // a released block full of other values ...
+          SU_vector r5 = ACommutator(a, b); expect_same("construct(ACommutator) on a recycled block", r5, r, 0); }
         { // accumulated into a vector that already holds something (identity component included): x (+-)= f(a,b) is x (+-) f(a,b)
           SU_vector x0 = b; x0[0] += 0.75;
           SU_vector x = x0; x += ACommutator(a, b); SU_vector e = x0 + r; expect_same("x+=ACommutator(a,b)", x, e, 0);
